@@ -49,6 +49,103 @@ def write_zip(path, members, s2b):
                 z.writestr(zi, data)
 
 
+def write_zip_raw(path, members, s2b, opts):
+    """An archive built record by record, the way Info-ZIP lays it out and zipfile never does:
+    the LOCAL header carries a longer extra field (UT with mtime+atime, ux) than the CENTRAL record
+    (UT with mtime only, ux); optionally data descriptors (flag bit 3) with zeroed local sizes."""
+    import struct
+    import zlib
+    out = bytearray()
+    central = bytearray()
+    n = 0
+    for m in members:
+        raw = s2b(m["raw"])
+        kind = m["kind"]
+        if kind == "link":
+            attr, data = (stat.S_IFLNK | 0o777) << 16, s2b(m["dest"])
+        elif kind == "dir":
+            attr, data = ((stat.S_IFDIR | 0o755) << 16) | 0x10, b""
+        else:
+            attr, data = (stat.S_IFREG | m.get("mode", 0o644)) << 16, s2b(m.get("data", ""))
+        deflate = bool(m.get("deflate")) and not opts.get("store_all") and kind == "file"
+        if deflate:
+            c = zlib.compressobj(6, zlib.DEFLATED, -15)
+            payload = c.compress(data) + c.flush()
+            method = 8
+        else:
+            payload, method = data, 0
+        crc = zlib.crc32(data) & 0xFFFFFFFF
+        flags = 0x800 if m.get("utf8flag") else 0
+        descr = bool(opts.get("descriptor")) and kind == "file"
+        if descr:
+            flags |= 0x08
+        t = 1614834368
+        ux = struct.pack("<HHBBIBI", 0x7875, 11, 1, 4, 1000, 4, 1000)
+        lextra = struct.pack("<HHBII", 0x5455, 9, 3, t, t) + ux
+        cextra = struct.pack("<HHBI", 0x5455, 5, 3, t) + ux
+        dostime, dosdate = (5 << 11) | (6 << 5) | 4, ((2021 - 1980) << 9) | (3 << 5) | 4
+        offset = len(out)
+        lcrc, lcs, lus = (0, 0, 0) if descr else (crc, len(payload), len(data))
+        out += struct.pack("<4sHHHHHIIIHH", b"PK\x03\x04", 20, flags, method, dostime, dosdate, lcrc, lcs, lus,
+                           len(raw), len(lextra)) + raw + lextra + payload
+        if descr:
+            out += struct.pack("<4sIII", b"PK\x07\x08", crc, len(payload), len(data))
+        central += struct.pack("<4sHHHHHHIIIHHHHHII", b"PK\x01\x02", 0x031E, 20, flags, method, dostime, dosdate, crc,
+                               len(payload), len(data), len(raw), len(cextra), 0, 0, 0, attr, offset) + raw + cextra
+        n += 1
+    cdoff = len(out)
+    comment = b"archive comment, " * 3 if opts.get("comment") else b""
+    out += central + struct.pack("<4sHHHHIIH", b"PK\x05\x06", 0, 0, n, n, len(central), cdoff, len(comment)) + comment
+    with open(path, "wb") as f:
+        f.write(bytes(out))
+
+
+def write_zip_infozip(path, stage, opts):
+    """zip(1) on a staging copy of the tree: extended-timestamp extra fields, explicit directory members,
+    symbolic links stored as links; optionally store only, forced data descriptors, forced zip64"""
+    import subprocess
+    tmp = path + ".tmp-infozip"
+    if os.path.exists(tmp):
+        os.unlink(tmp)
+    cmd = ["zip", "-r", "-y", "-q"]
+    if opts.get("store_all"):
+        cmd.append("-0")
+    if opts.get("descriptor"):
+        cmd.append("-fd")
+    if opts.get("zip64"):
+        cmd.append("-fz")
+    p = subprocess.run(cmd + [tmp, "."], cwd=stage, stdout=subprocess.PIPE, stderr=subprocess.STDOUT)
+    if p.returncode not in (0, 12) or not os.path.exists(tmp):
+        raise RuntimeError("zip failed: %r" % p.stdout[-300:])
+    with open(tmp, "rb") as f:
+        data = f.read()
+    os.unlink(tmp)
+    with open(path, "wb") as f:
+        f.write(data)
+
+
+def finish_container(path, opts):
+    """what happens to an archive after it was written: a comment is added, a self-extractor stub is
+    glued in front (offsets left as they were: `cat stub a.zip`)"""
+    if opts.get("comment") and opts.get("writer") != "raw":
+        # written into the end-of-central-directory record by hand (zipfile's append mode would re-encode
+        # every non-ASCII member name as UTF-8 of its cp437 reading)
+        import struct
+        with open(path, "rb") as f:
+            data = f.read()
+        i = data.rfind(b"PK\x05\x06")
+        if i >= 0 and data[i + 20:i + 22] == b"\x00\x00" and len(data) == i + 22:
+            comment = b"archive comment, " * 3
+            data = data[:i + 20] + struct.pack("<H", len(comment)) + comment
+            with open(path, "wb") as f:
+                f.write(data)
+    if opts.get("sfx"):
+        with open(path, "rb") as f:
+            data = f.read()
+        with open(path, "wb") as f:
+            f.write(b"#!/bin/sh\n# self-extractor stub\nexit 0\n" + b"\x00JUNK" * 50 + data)
+
+
 def prune_links(top):
     """Remove, until nothing changes, every symbolic link below `top` that the OS
     cannot resolve or that resolves to something outside `top` (a dangling link is
@@ -167,8 +264,11 @@ def register(OPS, drv):
             names.append("!" + type(e).__name__)
         return names
 
-    def rebuild(w, tree, members, prune=True):
-        """(re)create /XT from `tree` and rewrite /XT.zip IN PLACE (same path, same inode) from `members`"""
+    def rebuild(w, tree, members, prune=True, container=None):
+        """(re)create /XT from `tree` and rewrite /XT.zip IN PLACE (same path, same inode) from `members`;
+        /only_z holds nothing but a copy of the archive, /only_t nothing but (a link to) the tree, so that
+        the menus of the two parents can be compared as a whole"""
+        opts = container or {}
         top = os.path.join(w.root, ARC)
         shutil.rmtree(top, ignore_errors=True)
         os.makedirs(top)
@@ -179,12 +279,35 @@ def register(OPS, drv):
             p = os.path.join(os.fsencode(w.root), drv.s2b(e["path"]))
             os.makedirs(os.path.dirname(p), exist_ok=True)
             os.symlink(os.fsencode(w.root) + b"/" + ARC.encode() + drv.s2b(e["target"]), p)
-        pruned = prune_links(top) if prune else []
         zpath = os.path.join(w.root, ARC + ".zip")
         ino = os.stat(zpath).st_ino if os.path.exists(zpath) else None
-        write_zip(zpath, members, drv.s2b)          # ZipFile(path, "w") truncates and rewrites the same file
+        writer = opts.get("writer", "zipfile")
+        if writer == "infozip" and not shutil.which("zip"):
+            writer = "raw"
+        if writer == "infozip":
+            stage = os.path.join(w.tmp, "stage")
+            shutil.rmtree(stage, ignore_errors=True)
+            os.makedirs(stage)
+            drv.build_tree(stage, list(tree))          # link targets exactly as given
+            write_zip_infozip(zpath, stage, opts)
+            shutil.rmtree(stage, ignore_errors=True)
+        elif writer == "raw":
+            write_zip_raw(zpath, members, drv.s2b, opts)
+        else:
+            write_zip(zpath, members, drv.s2b)          # ZipFile(path, "w") truncates and rewrites the same file
+        finish_container(zpath, dict(opts, writer=writer))
         if ino is not None and os.stat(zpath).st_ino != ino:
             raise RuntimeError("archive was not rewritten in place")
+        pruned = prune_links(top) if prune else []
+        oz, ot = os.path.join(w.root, "only_z"), os.path.join(w.root, "only_t")
+        os.makedirs(oz, exist_ok=True)
+        os.makedirs(ot, exist_ok=True)
+        with open(zpath, "rb") as f:
+            data = f.read()
+        with open(os.path.join(oz, ARC + ".zip"), "wb") as f:
+            f.write(data)
+        if not os.path.lexists(os.path.join(ot, ARC)):
+            os.symlink(os.path.join("..", ARC), os.path.join(ot, ARC))
         return sorted(pruned)
 
     def op_c16(job):
@@ -195,26 +318,17 @@ def register(OPS, drv):
         w = None
         cwd0 = os.getcwd()
         try:
-            pre = []
-            for e in spec["tree"]:
-                if e.get("kind") == "symlink" and e["target"].startswith("/"):
-                    pre.append(e)
-            tree_wo_abs = [e for e in spec["tree"] if e not in pre]
-            w = drv.World(dict(spec, tree=tree_wo_abs))
-            for e in pre:
-                p = os.path.join(os.fsencode(w.root), drv.s2b(e["path"]))
-                os.makedirs(os.path.dirname(p), exist_ok=True)
-                os.symlink(os.fsencode(w.root) + b"/" + ARC.encode() + drv.s2b(e["target"]), p)
-            top = os.path.join(w.root, ARC)
-            pruned = prune_links(top) if job.get("prune", True) else []
+            w = drv.World({"tree": [{"path": ARC, "kind": "dir"}] + job.get("extra_root", []), "config": job.get("config")})
+            pruned = rebuild(w, job.get("tree", []), job["members"], prune=job.get("prune", True),
+                             container=job.get("container"))
             zpath = os.path.join(w.root, ARC + ".zip")
-            write_zip(zpath, job["members"], drv.s2b)
             cwd = os.path.join(w.tmp, "cwd")
             os.makedirs(cwd)
             for e in job.get("cwd_files", []):
                 drv.build_tree(cwd, [e])
             os.chdir(cwd)
-            out = {"pruned": sorted(pruned), "infolist": infolist(zpath), "actions": []}
+            out = {"pruned": sorted(pruned), "infolist": infolist(zpath) if job.get("infolist", True) else None,
+                   "actions": []}
             real = VFS_Real(w.config)
             for a in job["actions"]:
                 k = a["do"]
@@ -245,7 +359,7 @@ def register(OPS, drv):
                     r = {"chain": handler_chain(a["sel"], w.config)}
                 elif k == "rewrite":
                     # the site is updated while the server keeps running
-                    r = {"pruned": rebuild(w, a["tree"], a["members"])}
+                    r = {"pruned": rebuild(w, a["tree"], a["members"], container=a.get("container"))}
                 else:
                     raise ValueError(k)
                 out["actions"].append(r)
